@@ -486,6 +486,9 @@ func (runInfo *runInfoStruct) makeCallArgs(rt reflect.Type, isRunVMFunction bool
 		if runInfo.err != nil {
 			return nil, false
 		}
+		if runInfo.rv.Kind() == reflect.Interface && !runInfo.rv.IsNil() {
+			runInfo.rv = runInfo.rv.Elem()
+		}
 		if runInfo.rv.Kind() != reflect.Slice && runInfo.rv.Kind() != reflect.Array {
 			runInfo.err = newStringError(callExpr, "call is variadic but last parameter is of type "+runInfo.rv.Type().String())
 			runInfo.rv = nilValue
